@@ -428,6 +428,7 @@ variable (s : Sh) (loc child : Nat) (plt : Bool)
 @[simp] theorem pushHook_vf : (pushHook s loc child plt).vf = s.vf := by simp [pushHook]
 @[simp] theorem pushHook_dead : (pushHook s loc child plt).dead = s.dead := by simp [pushHook]
 @[simp] theorem pushHook_out : (pushHook s loc child plt).out = s.out := by simp [pushHook]
+@[simp] theorem pushHook_pid : (pushHook s loc child plt).pid = s.pid := by simp [pushHook]
 end pushHook
 
 /-- the memory after an entry hook: the new slot is hooked and, unless this is a tail call on the
@@ -1387,6 +1388,7 @@ variable (s : Sh) (slot orig : Nat)
 @[simp] theorem progStore_jbs : (progStore s slot orig).jbs = s.jbs := rfl
 @[simp] theorem progStore_vf : (progStore s slot orig).vf = s.vf := rfl
 @[simp] theorem progStore_dead : (progStore s slot orig).dead = s.dead := rfl
+@[simp] theorem progStore_pid : (progStore s slot orig).pid = s.pid := rfl
 theorem progStore_slot : (progStore s slot orig).mem slot = orig := upd_same _ _ _
 theorem progStore_above {a : Nat} (h : slot < a) : (progStore s slot orig).mem a = s.mem a :=
   upd_other _ _ (by omega)
@@ -1903,7 +1905,9 @@ namespace Uft.NonLocal
 
 /-! ### TraceInv along machine steps -/
 
-def Op.terminal : Op → Bool
+/-- ops after which nothing is claimed about record depths: the thread or process ends
+    (pthread_exit, exit), or the depth theorem is not proved (vforkExec: H1/H5 only) -/
+def Op.noDepthClaim : Op → Bool
   | .pthreadExit .. | .exit .. | .vforkExec .. => true
   | _ => false
 
@@ -1911,7 +1915,7 @@ theorem step_halted (fx : Fix) {m : M} (h : m.halted = true) (op : Op) : step fx
   cases op <;> simp [step, h]
 
 theorem trace_step {m : M} (hi : Inv m) (ht : TraceInv m.sh) {op : Op} (hw : WellFormedOp m op)
-    (hnt : op.terminal = false) : TraceInv (step Fix.all m op).sh := by
+    (hnt : op.noDepthClaim = false) : TraceInv (step Fix.all m op).sh := by
   cases op with
   | call k child slot orig fpw =>
     simp only [step, hi.nh, Bool.false_eq_true, ↓reduceIte]
@@ -1961,9 +1965,9 @@ theorem trace_step {m : M} (hi : Inv m) (ht : TraceInv m.sh) {op : Op} (hw : Wel
     split
     · exact trace_excPre _ ht _
     · exact ht
-  | pthreadExit child slot orig => simp [Op.terminal] at hnt
-  | exit child slot orig => simp [Op.terminal] at hnt
-  | vforkExec a b c d e => simp [Op.terminal] at hnt
+  | pthreadExit child slot orig => simp [Op.noDepthClaim] at hnt
+  | exit child slot orig => simp [Op.noDepthClaim] at hnt
+  | vforkExec a b c d e => simp [Op.noDepthClaim] at hnt
   | mtdDtor =>
     -- nothing is hooked any more: the shadow stack is already empty
     have hi' := inv_mtdDtor hi hw
@@ -2167,5 +2171,222 @@ theorem ret_frame {m : M} (hi : Inv m) (hx : m.sh.inExc = false) (hw : WellForme
     cases hexp : expFrames fs with
     | nil => rfl
     | cons p ps => exact upd_other _ _ (ha p ps hexp)
+
+end Uft.NonLocal
+
+namespace Uft.NonLocal
+
+/-! ### vfork + exec -/
+
+/-- the exit of a PLT entry that sits on top of an in-step stack (not through a return slot of the
+    model's real stack: setjmp's second return, vfork's two returns) -/
+theorem pop_frame_ok {fs : List Frame} {s : Sh} {x : Ctl} (hc : s.rs.map Ent.c = x :: expFrames fs)
+    (hx : s.inExc = false) (hs : Sorted fs) (hlt : ∀ f ∈ fs, x.loc < f.slot) (hmo : MemOk fs s.mem) :
+    (exitTop s).2 = x.ip ∧ (exitTop s).1.rs.map Ent.c = expFrames fs ∧ MemOk fs (exitTop s).1.mem ∧
+    TopOk fs (exitTop s).1.mem ∧ (exitTop s).1.inExc = false ∧ (exitTop s).1.jbs = s.jbs ∧
+    (exitTop s).1.vf = s.vf ∧ (exitTop s).1.dead = s.dead := by
+  have h := exitTop_spec hc
+  refine ⟨h.1, h.2.1, ?_, ?_, by rw [h.2.2.2.2.1]; exact hx, h.2.2.2.2.2.1, h.2.2.2.2.2.2.1, h.2.2.2.2.2.2.2.1⟩
+  · intro g hg
+    rw [h.2.2.1]
+    cases hexp : expFrames fs with
+    | nil => exact hmo g hg
+    | cons p ps =>
+      obtain ⟨g0, hg0, l, rr, hgc, rfl⟩ := expFrames_head hexp
+      have hne : x.loc ≠ (l.ctl g0.slot (belowIp g0.orig rr)).loc := Nat.ne_of_lt (hlt g0 hg0)
+      simp only [exitMem, hx, hne, Bool.false_eq_true, ↓reduceIte]
+      by_cases hgg : g.slot = g0.slot
+      · have := sorted_slot_inj hs hg hg0 hgg
+        subst this
+        right; exact ⟨l, rr, hgc, by simp [Link.ctl]⟩
+      · simp only [Link.ctl]
+        rw [upd_other _ _ hgg]; exact hmo g hg
+  · intro p ps hp
+    rw [h.2.2.1, hp]
+    obtain ⟨g0, hg0, e0⟩ := expFrames_loc (by rw [hp]; simp : p ∈ expFrames fs)
+    have hne : x.loc ≠ p.loc := by rw [e0]; exact Nat.ne_of_lt (hlt g0 hg0)
+    simp [exitMem, hx, hne]
+
+/-- __plthook_exit in the vfork child: new shmem, leave through the vfork entry -/
+theorem plthookExit_vfork_child {s : Sh} {e : Ent} {r : List Ent} {v : VSave} (hr : s.rs = e :: r)
+    (hl : e.c.ljmp = false) (hvk : e.c.vfork = true) (hp : e.c.plt = true) (hvf : s.vf = some v)
+    (hpid : s.pid ≠ v.parent) : plthookExit s = exitTop { s with child := true } := by
+  simp [plthookExit, plthookExitCore, hr, hl, hvk, hp, hvf, restoreVfork, hpid]
+
+/-- __plthook_exit in the parent after the child is gone: the saved vfork entry comes back -/
+theorem plthookExit_vfork_parent {s : Sh} {e : Ent} {r : List Ent} {v : VSave} (hr : s.rs = e :: r)
+    (hl : e.c.ljmp = false) (hvk : e.c.vfork = false) (hvf : s.vf = some v) (hpid : s.pid = v.parent)
+    (hidx : v.idx - 1 = r.length) (hp : v.ent.c.plt = true) :
+    plthookExit s = exitTop { s with child := false, rs := v.ent :: r, recIdx := v.recIdx, vf := none } := by
+  have hle : v.idx - 1 ≤ r.length + 1 := by omega
+  have hd : List.drop (r.length + 1 - (v.idx - 1)) (e :: r) = r := by
+    rw [hidx]; simp
+  simp [plthookExit, plthookExitCore, hr, hl, hvk, hvf, restoreVfork, hpid, hle, hd, hp]
+
+theorem plthookEntry_vfork {s : Sh} (h : s.inExc = false) (loc child : Nat) :
+    plthookEntry Fix.all s loc child .vfork 0 =
+      prepareVfork { (pushHook s loc child true).record false with
+        rs := setTop ((pushHook s loc child true).record false).rs
+                fun e => { e with c := { e.c with vfork := true } } } := by
+  simp [plthookEntry, h, Sym.flushes, pltSpecial]
+
+theorem plthookEntry_flush {s : Sh} (h : s.inExc = false) (loc child : Nat) :
+    plthookEntry Fix.all s loc child .flush 0 = (pushHook s loc child true).record false := by
+  simp [plthookEntry, h, Sym.flushes, pltSpecial]
+
+theorem inv_vforkExec {m : M} (hi : Inv m) {child slot orig echild eorig : Nat}
+    (hw : WellFormedOp m (.vforkExec child slot orig echild eorig)) :
+    Inv (step Fix.all m (.vforkExec child slot orig echild eorig)) ∧
+    (step Fix.all m (.vforkExec child slot orig echild eorig)).last = orig := by
+  obtain ⟨hlt, hor, heor, hx⟩ := hw
+  obtain ⟨a1, a2, a3⟩ := inv_push_plt (child := child) hi hlt hor hx
+  -- vfork@plt in the parent
+  let s1 := pushHook (progStore m.sh slot orig) slot child true
+  have hrc : (s1.record false).rs.map Ent.c = ⟨slot, orig, child, true, false, false⟩ :: expFrames m.fs := by
+    rw [record_c, ← expFrames_cons_one]; exact a1
+  obtain ⟨e, r, hr, he, hrr⟩ := List.map_eq_cons_iff.mp hrc
+  let ev : Ent := { e with c := { e.c with vfork := true } }
+  let v : VSave := ⟨m.sh.pid, r.length + 1, s1.recIdx, { ev with written := true }⟩
+  let sh1 : Sh := { s1.record false with rs := ev :: r, vf := some v }
+  have hpe : plthookEntry Fix.all (progStore m.sh slot orig) slot child .vfork 0 = sh1 := by
+    rw [plthookEntry_vfork (s := progStore m.sh slot orig) hx]
+    simp [prepareVfork, hr, setTop, sh1, v, ev, s1]
+  have hsaved : sh1.mem slot = PTRAMP := by
+    show (s1.record false).mem slot = PTRAMP
+    rw [record_mem]; exact a3 _ _ (expFrames_cons_one slot orig child true m.fs)
+  have hmem1 : sh1.mem = s1.mem := by show (s1.record false).mem = s1.mem; exact record_mem _ _
+  -- the child returns from vfork
+  let sC : Sh := { sh1 with pid := sh1.pid + 1 }
+  have hpidC : sC.pid ≠ v.parent := by
+    show (s1.record false).pid + 1 ≠ m.sh.pid
+    have : (s1.record false).pid = m.sh.pid := by simp [s1, pushHook, progStore]
+    omega
+  have hexC : plthookExit sC = exitTop { sC with child := true } :=
+    plthookExit_vfork_child (e := ev) (r := r) (v := v) rfl (by simp [ev, he]) rfl (by simp [ev, he]) rfl hpidC
+  have hcC : ({ sC with child := true } : Sh).rs.map Ent.c = ⟨slot, orig, child, true, false, true⟩ :: expFrames m.fs := by
+    show (ev :: r).map Ent.c = _
+    simp [ev, he, hrr]
+  have hmoC : MemOk m.fs ({ sC with child := true } : Sh).mem := by
+    show MemOk m.fs sh1.mem
+    rw [hmem1]; exact fun g hg => a2 g (by simp [hg])
+  have hxC : ({ sC with child := true } : Sh).inExc = false := by
+    show (s1.record false).inExc = false
+    simpa [s1] using hx
+  obtain ⟨c1, c2, c3, c4, c5, c6, c7, c8⟩ := pop_frame_ok (x := ⟨slot, orig, child, true, false, true⟩) hcC hxC hi.sorted
+    hlt hmoC
+  -- the child calls exec
+  let sA := (exitTop { sC with child := true }).1
+  have hpidA : sA.pid = m.sh.pid + 1 := by
+    show (exitTop { sC with child := true }).1.pid = _
+    have : ∀ t : Sh, (exitTop t).1.pid = t.pid := by
+      intro t; cases ht : t.rs <;> simp [exitTop, ht, exitFilterRecord, autoRehook] <;> (repeat' split) <;> simp
+    rw [this]; simp [sC, sh1, s1, pushHook, progStore]
+  have hcE := push_frame_ok (s := progStore sA slot eorig) (slot := slot) (orig := eorig) (child := echild)
+    (plt := true) c2 c5 hi.sorted hi.origs hlt (progStore_slot _ _ _)
+    (c3.mono (fun f hf => progStore_above _ _ _ (hlt f hf)))
+  obtain ⟨d1, d2, d3⟩ := hcE
+  let s3 := (pushHook (progStore sA slot eorig) slot echild true).record false
+  have hpe3 : plthookEntry Fix.all (progStore sA slot eorig) slot echild .flush 0 = s3 :=
+    plthookEntry_flush (s := progStore sA slot eorig) c5 slot echild
+  have hc3 : s3.rs.map Ent.c = ⟨slot, eorig, echild, true, false, false⟩ :: expFrames m.fs := by
+    show ((pushHook (progStore sA slot eorig) slot echild true).record false).rs.map Ent.c = _
+    rw [record_c, ← expFrames_cons_one]; exact d1
+  obtain ⟨e3, r3, hr3, he3, hrr3⟩ := List.map_eq_cons_iff.mp hc3
+  -- exec: the parent returns from vfork
+  let sP : Sh := { s3 with pid := s3.pid - 1 }
+  have hvf3 : s3.vf = some v := by
+    show ((pushHook (progStore sA slot eorig) slot echild true).record false).vf = some v
+    simp only [record_vf, pushHook_vf, progStore_vf]
+    show (exitTop { sC with child := true }).1.vf = some v
+    rw [c7]
+  have hpid3 : s3.pid = m.sh.pid + 1 := by
+    show ((pushHook (progStore sA slot eorig) slot echild true).record false).pid = _
+    rw [record_pid]
+    simp only [pushHook, autoRestore_pid]
+    exact hpidA
+  have hlen3 : r3.length = r.length := by
+    have h1 := congrArg List.length hrr3
+    have h2 := congrArg List.length hrr
+    simp at h1 h2; omega
+  have hexP : plthookExit sP =
+      exitTop { sP with child := false, rs := v.ent :: r3, recIdx := v.recIdx, vf := none } :=
+    plthookExit_vfork_parent (e := e3) (r := r3) (v := v) hr3 (by simp [he3]) (by simp [he3]) hvf3
+      (by show s3.pid - 1 = m.sh.pid; rw [hpid3]; simp) (by show r.length + 1 - 1 = r3.length; omega)
+      (by simp [v, ev, he])
+  let sQ : Sh := { sP with child := false, rs := v.ent :: r3, recIdx := v.recIdx, vf := none }
+  have hcQ : sQ.rs.map Ent.c = ⟨slot, orig, child, true, false, true⟩ :: expFrames m.fs := by
+    show (v.ent :: r3).map Ent.c = _
+    simp [v, ev, he, hrr3]
+  have hmoQ : MemOk m.fs sQ.mem := by
+    show MemOk m.fs s3.mem
+    show MemOk m.fs ((pushHook (progStore sA slot eorig) slot echild true).record false).mem
+    rw [record_mem]; exact fun g hg => d2 g (by simp [hg])
+  have hxQ : sQ.inExc = false := by
+    show ((pushHook (progStore sA slot eorig) slot echild true).record false).inExc = false
+    simpa using c5
+  obtain ⟨q1, q2, q3, q4, q5, q6, q7, q8⟩ := pop_frame_ok (x := ⟨slot, orig, child, true, false, true⟩) hcQ hxQ hi.sorted
+    hlt hmoQ
+  have hstep : step Fix.all m (.vforkExec child slot orig echild eorig) =
+      { m with sh := (exitTop sQ).1, last := orig } := by
+    have e1 : step Fix.all m (.vforkExec child slot orig echild eorig) =
+        { m with
+          sh := (retLoop ((plthookEntry Fix.all (progStore (retLoop (sh1.rs.length + 1) sC (sh1.mem slot)).1 slot eorig)
+                            slot echild .flush 0).rs.length + 1)
+                  { plthookEntry Fix.all (progStore (retLoop (sh1.rs.length + 1) sC (sh1.mem slot)).1 slot eorig)
+                      slot echild .flush 0 with
+                    pid := (plthookEntry Fix.all (progStore (retLoop (sh1.rs.length + 1) sC (sh1.mem slot)).1 slot eorig)
+                      slot echild .flush 0).pid - 1 } (sh1.mem slot)).1
+          last := (retLoop ((plthookEntry Fix.all (progStore (retLoop (sh1.rs.length + 1) sC (sh1.mem slot)).1 slot eorig)
+                            slot echild .flush 0).rs.length + 1)
+                  { plthookEntry Fix.all (progStore (retLoop (sh1.rs.length + 1) sC (sh1.mem slot)).1 slot eorig)
+                      slot echild .flush 0 with
+                    pid := (plthookEntry Fix.all (progStore (retLoop (sh1.rs.length + 1) sC (sh1.mem slot)).1 slot eorig)
+                      slot echild .flush 0).pid - 1 } (sh1.mem slot)).2 } := by
+      simp only [step, hi.nh, Bool.false_eq_true, ↓reduceIte]
+      rw [show ({ m.sh with mem := upd m.sh.mem slot orig } : Sh) = progStore m.sh slot orig from rfl, hpe]
+      rfl
+    rw [e1, hsaved]
+    have hA : retLoop (sh1.rs.length + 1) sC PTRAMP = (sA, orig) := by
+      rw [retLoop_succ_ptramp, hexC, c1]
+      exact retLoop_stop hor _ _
+    rw [hA]
+    show ({ m with
+        sh := (retLoop ((plthookEntry Fix.all (progStore sA slot eorig) slot echild .flush 0).rs.length + 1)
+                { plthookEntry Fix.all (progStore sA slot eorig) slot echild .flush 0 with
+                  pid := (plthookEntry Fix.all (progStore sA slot eorig) slot echild .flush 0).pid - 1 } PTRAMP).1
+        last := (retLoop ((plthookEntry Fix.all (progStore sA slot eorig) slot echild .flush 0).rs.length + 1)
+                { plthookEntry Fix.all (progStore sA slot eorig) slot echild .flush 0 with
+                  pid := (plthookEntry Fix.all (progStore sA slot eorig) slot echild .flush 0).pid - 1 } PTRAMP).2 } : M) = _
+    rw [hpe3]
+    have hB : retLoop (s3.rs.length + 1) sP PTRAMP = ((exitTop sQ).1, orig) := by
+      rw [retLoop_succ_ptramp, hexP, q1]
+      exact retLoop_stop hor _ _
+    rw [hB]
+  rw [hstep]
+  refine ⟨⟨hi.nh, ?_, ?_, ⟨[], by simpa using q2, fun _ => rfl⟩, hi.sorted, hi.origs, q3, fun _ => q4, ?_, ?_⟩, rfl⟩
+  · show (exitTop sQ).1.dead = false
+    rw [q8]
+    show s3.dead = false
+    show ((pushHook (progStore sA slot eorig) slot echild true).record false).dead = false
+    simp only [record_dead, pushHook_dead, progStore_dead]
+    show (exitTop { sC with child := true }).1.dead = false
+    rw [c8]
+    show (s1.record false).dead = false
+    simpa [s1] using hi.nd
+  · show (exitTop sQ).1.vf = none
+    rw [q7]
+  · intro h
+    have : (exitTop sQ).1.inExc = false := q5
+    rw [this] at h; cases h
+  · intro j jb hj
+    refine jbOk_of_jbs ?_ (hi.jb j jb hj)
+    show (exitTop sQ).1.jbs = m.sh.jbs
+    rw [q6]
+    show ((pushHook (progStore sA slot eorig) slot echild true).record false).jbs = m.sh.jbs
+    simp only [record_jbs, pushHook_jbs, progStore_jbs]
+    show (exitTop { sC with child := true }).1.jbs = m.sh.jbs
+    rw [c6]
+    show (s1.record false).jbs = m.sh.jbs
+    simp [s1]
 
 end Uft.NonLocal
